@@ -147,7 +147,7 @@ pub fn judge(rep: &mut Report, c: &Case, bases: &std::collections::HashSet<crate
     if compile1(&c.rule).is_err() { rep.obs("rule_rejected", 1); return }
     let plain_run = match run_pub(&g, &[word.clone()], &[], &[]) { Ok(v) => v[0].clone(), Err(Applied::Abort(s)) => { rep.abort(s, || c.json()); return } Err(_) => { rep.obs("run_err", 1); return } };
     if c.kind == "romaniser" {
-        let with = match run_pub(&g, &[word.clone()], &[], &c.aliases) { Ok(v) => v[0].clone(), Err(Applied::Abort(s)) => { rep.abort(s, || c.json()); return } Err(e) => { let t = e.tag(); if t.contains("AliasSyn") || t.contains("AliasRun") { rep.obs("alias_rejected", 1); rep.obs(&format!("alias_rejected:{t}"), 1); if std::env::var("VERIF_DUMP").is_ok() { eprintln!("REJ {t} {:?}", c.aliases); } } else { rep.violation("run-fails-only-with-romanisers".into(), || json!({"case": c.json(), "observed": t})); } return } };
+        let with = match run_pub(&g, &[word.clone()], &[], &c.aliases) { Ok(v) => v[0].clone(), Err(Applied::Abort(s)) => { rep.abort(s, || c.json()); return } Err(e) => { let t = e.tag(); if t.contains("AliasSyn") || t.contains("AliasRun") { rep.obs("alias_rejected", 1); if t.contains("AliasSyn") { rep.violation("romaniser-in-documented-form-rejected".into(), || json!({"case": c.json(), "observed": t})); } } else { rep.violation("run-fails-only-with-romanisers".into(), || json!({"case": c.json(), "observed": t})); } return } };
         let Some((lines, bound)) = parse_aliases(&c.aliases) else { rep.obs("alias_outside_reference", 1); return };
         // structural result WITHOUT aliases
         let Ok(w) = parse_word(&word) else { return };
@@ -162,7 +162,7 @@ pub fn judge(rep: &mut Report, c: &Case, bases: &std::collections::HashSet<crate
         let mut table: Vec<(String, String, bool)> = Vec::new();
         for l in &c.aliases { if let Some((s, x)) = l.split_once(" > ") { let long = x.ends_with(":[+long]"); table.push((s.to_string(), x.trim_end_matches(":[+long]").to_string(), long)); } }
         let enc = c.text(&|s, long| { if c.expand.iter().any(|(f, _)| f == s) { return s.to_string() } for (f, x, l) in &table { if x == s && *l == long { return f.clone() } } if long { format!("{s}ː") } else { s.to_string() } });
-        let with = match run_pub(&g, &[enc.clone()], &c.aliases, &[]) { Ok(v) => v[0].clone(), Err(Applied::Abort(s)) => { rep.abort(s, || c.json()); return } Err(e) => { let t = e.tag(); if t.contains("AliasSyn") || t.contains("AliasRun") { rep.obs("alias_rejected", 1); } else { rep.violation("encoded-word-fails".into(), || json!({"case": c.json(), "word": word, "encoded": enc, "observed": t})); } return } };
+        let with = match run_pub(&g, &[enc.clone()], &c.aliases, &[]) { Ok(v) => v[0].clone(), Err(Applied::Abort(s)) => { rep.abort(s, || c.json()); return } Err(e) => { let t = e.tag(); if t.contains("AliasSyn") || t.contains("AliasRun") { rep.obs("alias_rejected", 1); if t.contains("AliasSyn") { rep.violation("deromaniser-in-documented-form-rejected".into(), || json!({"case": c.json(), "observed": t})); } } else { rep.violation("encoded-word-fails".into(), || json!({"case": c.json(), "word": word, "encoded": enc, "observed": t})); } return } };
         if with != plain_run { rep.violation("deromanised-run-differs".into(), || json!({"case": c.json(), "word": word, "encoded": enc, "expected": plain_run, "observed": with})); return }
         if enc != word && plain_run != word { rep.nontrivial(hash64(&(&c.rule, &c.aliases, &word))); if rep.samples.len() < 8 { let v = json!({"rule": c.rule, "word": word, "encoded": enc, "deromanisers": c.aliases, "result": with}); rep.sample(|| v); } }
     }
